@@ -62,8 +62,13 @@ def cases(draw, tier):
                                    st.binary(min_size=1, max_size=1000))),
             "custom": draw(st.binary(min_size=1, max_size=150)),
             "seed": draw(st.binary(max_size=8)),
-            "rd_tail_a": draw(st.binary(min_size=32, max_size=32)),
-            "rd_tail_q": draw(st.binary(min_size=32, max_size=32))}
+            # the upper half of the report data: zero as devices leave it, or anything
+            "rd_tail_a": draw(st.one_of(st.just(bytes(32)), st.binary(min_size=32, max_size=32))),
+            "rd_tail_q": draw(st.one_of(st.just(bytes(32)), st.binary(min_size=32, max_size=32))),
+            # digests that begin or end in zero bytes (1 in 256 by chance)
+            "grind_custom": draw(st.sampled_from([None, None, None, "ends-00", "starts-00",
+                                                  "ends-0000"])),
+            "grind_auth": draw(st.sampled_from([None, None, None, "ends-00", "starts-00"]))}
     corr = []
     for _ in range(draw(st.sampled_from([0, 1, 1, 1, 2]))):
         corr.append({"kind": draw(st.sampled_from(CORR)), "el": draw(st.integers(0, 9)),
